@@ -611,6 +611,13 @@ Outcome run_trypoll_case(const Case &c) {
   return o;
 }
 Outcome run_case(const Case &c) {
+  // "reinit_<kind>": the same program in a second lifetime of the library (shutdown + init first) - state that a module initialises once
+  // per process instead of once per init shows only there (at most 40 cycles per harness process: every init takes a native TLS key)
+  if (c.kind.rfind("reinit_", 0) == 0) {
+    static int cycles = 0;
+    if (cycles < 40) { cycles++; p_libsys_shutdown(); p_libsys_init(); vl::stats().klass("library_reinitialised_before_the_case"); }
+    Case d = c; d.kind = c.kind.substr(7); Outcome o = run_case(d); o.fp = vl::fnv1a(to_text(c)); return o;
+  }
   if (c.kind == "thr") return run_threads_case(c);
   if (c.kind == "trypoll") return run_trypoll_case(c);
   if (c.kind == "longhold") return run_longhold_case(c);
